@@ -266,6 +266,19 @@ pub fn build(cfg: &NetCfg, params: Option<&[P]>) -> Result<Network, String> {
         }
         // the accumulation may be configured before or after the connections are made
         let late = (cfg.layers.len() + cfg.skips.len() + cfg.loops.len()) % 2 == 1;
+        // a setting that concerns nothing in this network (the skip accumulation without skip
+        // connections, the loop accumulation without loop connections) must not matter: it is
+        // set to a value derived from the configuration instead of being left at its default
+        let h = crate::rng::fnv(&cfg.describe());
+        let all = [Acc::Add, Acc::Sub, Acc::Mul, Acc::Mean, Acc::Overwrite];
+        let mut cfg = cfg.clone();
+        if cfg.skips.is_empty() && !cfg.keep_default_accumulations {
+            cfg.skipacc = all[(h % 5) as usize];
+        }
+        if cfg.loops.is_empty() && !cfg.keep_default_accumulations {
+            cfg.loopacc = all[((h / 5) % 5) as usize];
+        }
+        let cfg = &cfg;
         if !late {
             net.set_accumulation(lib_acc(cfg.skipacc), lib_acc(cfg.loopacc));
         }
